@@ -80,7 +80,9 @@ type isim struct {
 	txs      []*txRec
 	blocks   []*blockRec
 	canaries []subscription
-	npubs    int // publications every canary must have seen
+	canGot   []int          // events each canary has received so far
+	bundle   []subscription // members of ill-typed bundles (drained, never checked)
+	npubs    int            // publications every canary must have seen
 	others   []subscription
 	opsLeft  int
 	poisoned bool
@@ -88,7 +90,7 @@ type isim struct {
 	wedged   bool
 	nsub     int
 
-	postPoison int // blocks published after the ill-typed bundle
+	postPoison int             // blocks published after the ill-typed bundle
 	slashKeys  map[string]bool // composite keys under which an indexed tx attribute value contains "/"
 }
 
@@ -118,6 +120,7 @@ func newIndexSim(env *simcore.Env, cfg simcore.Op) simcore.Sim {
 		}
 		env.Settle()
 		s.canaries = append(s.canaries, sub)
+		s.canGot = append(s.canGot, 0)
 	}
 	return s
 }
@@ -497,6 +500,7 @@ func (s *isim) Apply(op simcore.Op) bool {
 		for j := 0; j < op.Int("m"); j++ {
 			if s.subscribe(renderQuery([]cond{poisonVariant(base[0], j)}, false), op.Int("cap")) {
 				any = true
+				s.bundle = append(s.bundle, s.others[len(s.others)-1])
 			}
 		}
 		if !any {
@@ -591,10 +595,21 @@ func (s *isim) applyBlock(op simcore.Op) {
 	}
 	// other subscribers must not be affected (same oracle as pubsub mode, counts only): every
 	// canary holds every event published so far; while the publisher is stuck they must at least agree
+	for _, b := range s.bundle {
+		for len(b.Out()) > 0 {
+			<-b.Out()
+		}
+	}
 	if len(s.canaries) > 0 {
-		lo, hi := len(s.canaries[0].Out()), len(s.canaries[0].Out())
-		for _, c := range s.canaries {
-			if n := len(c.Out()); n < lo {
+		for j, c := range s.canaries {
+			for len(c.Out()) > 0 {
+				<-c.Out()
+				s.canGot[j]++
+			}
+		}
+		lo, hi := s.canGot[0], s.canGot[0]
+		for _, n := range s.canGot {
+			if n < lo {
 				lo = n
 			} else if n > hi {
 				hi = n
